@@ -131,6 +131,14 @@ def run(tier, seed):
             else:
                 ls.append(rnd.choice(corrupt))
         files.append(ls)
+    # long files with many unparsable and blank lines (a reader that gives up after some errors shows only here)
+    for _ in range(6 if tier == "quick" else 60):
+        ls = []
+        for _ in range(rnd.randint(60, 250)):
+            k = rnd.random()
+            ls.append(rnd.choice(base_lines) if k < 0.45 else ("" if k < 0.6 else (";" + gen_stem(rnd) if k < 0.65 else rnd.choice(corrupt))))
+        ls.append(rnd.choice(base_lines))
+        files.append(ls)
     fread = harness_parallel([{"op": "dic_readall", "content": "\n".join(ls)} for ls in files])
     flat_lines = sorted({l for ls in files for l in ls})
     lp = dict(zip(flat_lines, harness_parallel([{"op": "dic_parse", "line": l} for l in flat_lines])))
